@@ -60,9 +60,9 @@ Theorem deltas_roundtrip_total : forall ds, forallb in32 ds = true ->
 Proof. exact ProofsDeltas.deltas_roundtrip_total. Qed.
 Print Assumptions deltas_roundtrip_total.
 
-(* packed point numbers (gvar/cvar): an explicit, sorted point set of fewer than 32768 points (the count is stored in 15 bits) that
-   compiles decodes back to itself, consuming exactly the bytes written -- byte runs, word runs, runs of more than 128 points *)
-Theorem points_roundtrip : forall pts bytes, pts <> [] -> Z.of_nat (length pts) < 32768 ->
+(* packed point numbers (gvar/cvar): an explicit, sorted point set that compiles decodes back to itself, consuming exactly the bytes
+   written -- byte runs, word runs, runs of more than 128 points; more than 32767 points (the count has 15 bits) are refused *)
+Theorem points_roundtrip : forall pts bytes, pts <> [] ->
   compilePoints pts = Ok bytes -> decompilePoints bytes = Ok (Some pts, []).
 Proof. exact ProofsPoints.points_roundtrip. Qed.
 Print Assumptions points_roundtrip.
